@@ -569,7 +569,7 @@ def harness(bd, out, **kw):
             cmd += [f"--{k}"]
         else:
             cmd += [f"--{k}", str(v)]
-    p = vp.run_subject(cmd, timeout=3000)
+    p = vp.run_subject(cmd, timeout=1500)     # normal duration: 40-100 s
     m = re.search(r"panics=(\d+)", p.stdout or "")
     return int(m.group(1)) if m else 0
 
